@@ -238,7 +238,7 @@ def nearTieFlag (r : Req) (w : World) (psms : List (Psm Float)) : Bool :=
 
 def handle (op : String) (args impl : List String) : Option Reply :=
   match op with
-  | "search" => do
+  | "psmsearch" => do
     let r ← run pReq args
     if !r.covered then
       pure { model := "uncovered", agree := false, spec := "na" }
